@@ -28,7 +28,7 @@ pub fn run(cfg: &RunCfg) -> Ctx {
     let d2 = dir.clone();
     all.merge(par_cases(cfg, "tokens", cfg.n(1000, 16 * 4000), || (), move |_, rng, ctx, i| case(rng, ctx, i, &d2)));
     let _ = std::fs::remove_dir_all(&dir);
-    for k in ["pkg.absent", "pkg.single", "pkg.nested", "opt.no_package_emission", "opt.default_stubs", "opt.arc_self", "opt.client_only", "opt.server_only", "shape.unary", "shape.server_streaming", "shape.client_streaming", "shape.streaming", "name.non_camel_service", "name.keyword_method", "observed.methods_checked"] {
+    for k in ["pkg.absent", "pkg.single", "pkg.nested", "opt.no_package_emission", "opt.default_stubs", "opt.arc_self", "opt.client_only", "opt.server_only", "opt.disable_comments", "shape.unary", "shape.server_streaming", "shape.client_streaming", "shape.streaming", "name.non_camel_service", "name.keyword_method", "observed.methods_checked"] {
         all.floor(k, 5);
     }
     all
@@ -257,6 +257,20 @@ fn case(rng: &mut Rng, ctx: &mut Ctx, idx: u64, dir: &str) {
     let mut b = tonic_build::configure().out_dir(&out).build_client(build_client).build_server(build_server).generate_default_stubs(default_stubs).use_arc_self(arc_self).emit_rerun_if_changed(false);
     if !emit_package {
         b = b.disable_package_emission();
+    }
+    // options that only concern documentation must not change what is generated
+    if rng.chance(1, 3) {
+        let s0 = rng.pick(&services);
+        let svc_path = format!("{}{}", if emit_package { pkg.clone().map(|p| p + ".").unwrap_or_default() } else { String::new() }, s0.name);
+        if rng.bool() {
+            b = b.disable_comments(&svc_path);
+        }
+        for m in &s0.methods {
+            if rng.bool() {
+                b = b.disable_comments(format!("{}.{}", svc_path, m.name));
+            }
+        }
+        ctx.count("opt.disable_comments");
     }
     if let Err(e) = b.compile_fds(FileDescriptorSet { file: vec![fd] }) {
         ctx.violation("generator-failed", format!("compile_fds failed: {}", e));
